@@ -70,14 +70,13 @@ def rule_payload_btc(ctx):
             ctx.check('payload_btc', 'fallback-is-empty', okc, (b, i), 'error fallback closure returns the empty string')
         if strict[0] == 'unwrap_or':
             ctx.check('payload_btc', 'fallback-is-empty', canon(a2[2][1]) in ('""', 'new()', 'default()'), (b, i), 'error fallback is the empty string')
-        dec = re.match(r'^\(\(\((nth|next)\((.*)\) as Some\)\.0 as Ok\)\.0 as PushBytes\)\.0$', src)
+        dec = re.match(r'^\(nth\((.*)\)\?\? as PushBytes\)\.0$', src)
+        dec2 = re.match(r'^\(each\((.*)\)\? as PushBytes\)\.0$', src)
         ok = False
         if dec:
-            inner = dec.group(2)
-            if dec.group(1) == 'nth':
-                ok = inner == 'instructions(%s), 1' % S
-            else:
-                ok = inner in ('skip(instructions(%s), 1)' % S,)
+            ok = dec.group(1) == 'instructions(%s), 1' % S
+        elif dec2:
+            ok = dec2.group(1) in ('skip(instructions(%s), 1)' % S,)
         ctx.check('payload_btc', 'decoded-push-after-op_return', ok, (b, i),
                   'payload bytes = %s' % src,
                   bad_detail='payload bytes = %s: not the PushBytes of the instruction at index 1 of script.instructions()' % src)
@@ -100,7 +99,7 @@ def rule_payload_fork(ctx):
         if c.startswith('ScriptPattern::OpReturn{'):
             found += 1
             g = util.guards_at(p, d[1])
-            ctx.check('payload_fork', 'lossy-utf8-of-data-token', c == 'ScriptPattern::OpReturn{0: from_utf8_lossy((data(a1[1]) as Ok).0)}', (p, d[1]), c)
+            ctx.check('payload_fork', 'lossy-utf8-of-data-token', c == 'ScriptPattern::OpReturn{0: from_utf8_lossy(data(a1[1])?)}', (p, d[1]), c)
             tm = 'match_stack_pattern(a1, [StackElement::Op{0: 106}, StackElement::Data{0: new()}])'
             ctx.check('payload_fork', 'under-opreturn-template', tm in g, (p, d[1]), 'guards: [OP_RETURN, Data] template')
     ctx.check('payload_fork', 'single-construction', found == 1, p, '%d OpReturn construction(s)' % found)
@@ -128,7 +127,7 @@ def rule_print(ctx):
         ctx.check('print', 'guard:is-opreturn', '%s.script.pattern is OpReturn' % out in g, cs, 'printed only for OpReturn patterns')
         ctx.check('print', 'guard:non-empty', '!is_empty(%s)' % pay in g, cs, 'printed only for non-empty payloads',
                   bad_detail='the print is not guarded by !payload.is_empty(): guards are %s' % g)
-        extra = [x for x in g if x not in ('%s.script.pattern is OpReturn' % out, '!is_empty(%s)' % pay) and 'next(' not in x and not x.startswith('branch(')]
+        extra = [x for x in g if x not in ('%s.script.pattern is OpReturn' % out, '!is_empty(%s)' % pay) and 'next(' not in x and not util.is_ok_guard(x)]
         ctx.check('print', 'no-other-guard', not extra, cs, 'no further condition suppresses lines', bad_detail='additional guards %s' % extra)
         args = [(a[1], a[2], canon(a[3])) for a in f.args]
         byval = {a[2]: a for a in args}
